@@ -31,9 +31,75 @@ def boot():
     raise RuntimeError('scales imported from %s, expected %s' % (here, want))
   import scales.timer_queue  # noqa  (spawns the module-level timer greenlets on our hub)
   _install_random_shims()
+  _snapshot_shared_containers()
   _booted = True
   reset()
   return lp
+
+
+_SHARED = []     # (container object, pristine shallow copy) for every module-/class-level dict, set, list, deque of scales
+
+
+def _snapshot_shared_containers():
+  """Import every scales module and remember the contents of every module-level and class-level
+  mutable container as they are right after import.  reset() puts those contents back, so that
+  state a class or module shares between its instances cannot leak from one execution into the
+  next (executions must be independent and replayable); *within* an execution such sharing is
+  fully visible to the scenarios that use two instances."""
+  import collections
+  import copy
+  import importlib
+  import pkgutil
+  import scales
+  for m in pkgutil.walk_packages(scales.__path__, 'scales.'):
+    try:
+      importlib.import_module(m.name)
+    except Exception:   # optional third-party dependency missing (e.g. redis)
+      pass
+  kinds = (dict, set, list, collections.deque)
+  seen = set()
+
+  def scan_class(c):
+    if id(c) in seen:
+      return
+    seen.add(id(c))
+    for k, v in list(vars(c).items()):
+      if k.startswith('__'):
+        continue
+      if isinstance(v, kinds):
+        _SHARED.append((v, copy.copy(v)))
+      elif isinstance(v, type):
+        scan_class(v)
+
+  for name, mod in list(sys.modules.items()):
+    if mod is None or not (name == 'scales' or name.startswith('scales.')):
+      continue
+    for k, v in list(vars(mod).items()):
+      if k.startswith('__'):
+        continue
+      if isinstance(v, kinds):
+        _SHARED.append((v, copy.copy(v)))
+      elif isinstance(v, type) and v.__module__ == name:
+        scan_class(v)
+
+
+def _restore_shared_containers():
+  import scales.varz as varz
+  for obj, saved in _SHARED:
+    if obj == saved:
+      continue
+    if obj is varz.VarzReceiver.VARZ_METRICS:
+      continue    # registry filled when a VarzBase subclass is *defined*; harness-defined classes register once per process
+    if isinstance(obj, list):
+      obj[:] = saved
+    else:
+      obj.clear()
+      if isinstance(obj, dict):
+        obj.update(saved)
+      elif isinstance(obj, set):
+        obj.update(saved)
+      else:
+        obj.extend(saved)
 
 
 class Divergence(Exception):
@@ -234,6 +300,7 @@ def reset():
     for attr in ('GLOBAL_TIMER_QUEUE', 'LOW_RESOLUTION_TIME_SOURCE', 'LOW_RESOLUTION_TIMER_QUEUE'):
       if attr in getattr(mod, '__dict__', {}):
         setattr(mod, attr, getattr(tq, attr))
+  _restore_shared_containers()
   varz.VarzReceiver.VARZ_DATA.clear()
   core.ClientProxyBuilder._PROXY_TYPE_CACHE.clear()
   core.Scales.SERVICE_REGISTRY.clear()
